@@ -83,6 +83,11 @@ func c06Ops() []c06Op {
 		c06Op{"AddTo(quoted local part with parentheses)", func(m *mail.Msg) error { return m.AddTo(`"ops(oncall)"@x.example`) }, appendTo("To", na{"", "ops(oncall)@x.example"})},
 		c06Op{"From(quoted local part with brackets)", func(m *mail.Msg) error { return m.From(`"list[eu]"@x.example`) }, set("From", na{"", "list[eu]@x.example"})},
 	)
+	// display names with runs of blanks and a TAB: white space inside a quoted display name is part of the name
+	ops = append(ops,
+		c06Op{"FromFormat(name with two blanks)", func(m *mail.Msg) error { return m.FromFormat("Doe,  John", "a4@x.example") }, set("From", na{"Doe,  John", "a4@x.example"})},
+		c06Op{"ReplyToFormat(name with TAB)", func(m *mail.Msg) error { return m.ReplyToFormat("Support\tDesk", "a5@x.example") }, set("Reply-To", na{"Support\tDesk", "a5@x.example"})},
+	)
 	// renderings and a send in the middle of the sequence: they must not change what later calls mean
 	ops = append(ops,
 		c06Op{"(render)", func(m *mail.Msg) error { var b bytes.Buffer; _, err := m.WriteTo(&b); return err }, func(ref map[string][]na) bool { return true }},
@@ -115,6 +120,7 @@ func c06Ops() []c06Op {
 			c06Op{"Add" + h.name + "(duplicate plain)", func(m *mail.Msg) error { return h.add(m, c06A0.str()) }, appendTo(h.name, c06A0)},
 			c06Op{"Add" + h.name + "(invalid)", func(m *mail.Msg) error { return h.add(m, c06Bad) }, resync},
 			c06Op{"Add" + h.name + "Format(comma name)", func(m *mail.Msg) error { return h.addFmt(m, "Roe, Jane", "jane@x.example") }, appendTo(h.name, na{"Roe, Jane", "jane@x.example"})},
+			c06Op{"Add" + h.name + "Format(name with blank runs)", func(m *mail.Msg) error { return h.addFmt(m, "Ann   Smith  (R&D)", "ann@x.example") }, appendTo(h.name, na{"Ann   Smith  (R&D)", "ann@x.example"})},
 			c06Op{h.name + "IgnoreInvalid(valid, invalid, own)", func(m *mail.Msg) error { h.ignore(m, c06A2.str(), c06Bad, own.str()); return nil }, resync},
 			c06Op{h.name + "FromString(two)", func(m *mail.Msg) error { return h.fromStr(m, "a0@x.example, <a2@x.example>") }, set(h.name, c06A0, na{"", "a2@x.example"})},
 			// setting an empty list clears the header (documented: "replaces any existing addresses")
@@ -395,7 +401,7 @@ func init() {
 		ID: "C06", Title: "recipients are exactly To+Cc+Bcc, and Bcc stays hidden",
 		Run: func(r *vf.Run) {
 			nops := len(c06Ops())
-			r.SetRule(fmt.Sprintf("ALL sequences of length 0..L over %d concrete address-setting operations (From/FromFormat/EnvelopeFrom/ReplyTo/ReplyToFormat and, for each of To/Cc/Bcc: set(list), set(list with an invalid entry), Add (non-ASCII name / duplicate / invalid), AddFormat (name with comma), IgnoreInvalid(valid, invalid, own), FromString) followed by render and send; a boring reference (header → ordered list of (name, address)) is updated by the documented semantics and resynchronised from the getters after errors and *IgnoreInvalid; oracle: envelope sender/recipients in the reference server's commit, rendered address fields parsed back by the harness' own parser, Bcc-only addresses absent from every rendered byte; every sequence is run a second time with a caller that keeps the slices returned by GetTo/GetCc/GetBcc/GetFrom/GetAddrHeader before each operation and appends to them afterwards (the message must not change); distinct by operation sequence", nops))
+			r.SetRule(fmt.Sprintf("ALL sequences of length 0..L over %d concrete address-setting operations (From/FromFormat/EnvelopeFrom/ReplyTo/ReplyToFormat and, for each of To/Cc/Bcc: set(list), set(list with an invalid entry), Add (non-ASCII name / duplicate / invalid), AddFormat (name with comma; name with runs of blanks), IgnoreInvalid(valid, invalid, own), FromString) followed by render and send; a boring reference (header → ordered list of (name, address)) is updated by the documented semantics and resynchronised from the getters after errors and *IgnoreInvalid; oracle: envelope sender/recipients in the reference server's commit, rendered address fields parsed back by the harness' own parser, Bcc-only addresses absent from every rendered byte; every sequence is run a second time with a caller that keeps the slices returned by GetTo/GetCc/GetBcc/GetFrom/GetAddrHeader before each operation and appends to them afterwards (the message must not change); distinct by operation sequence", nops))
 			r.Assume("after a call that returned an error, or an *IgnoreInvalid call, the reference is re-read from the getters (the property is silent about which entries survive)")
 			L := 3
 			if r.Thorough {
